@@ -18,6 +18,7 @@
 package basepathfs
 
 import (
+	"errors"
 	"io/fs"
 	"os"
 	"time"
@@ -401,7 +402,18 @@ func (vfs *BasePathFS) Rel(basepath, targpath string) (string, error) {
 // Remove removes the named file or (empty) directory.
 // If there is an error, it will be of type *PathError.
 func (vfs *BasePathFS) Remove(name string) error {
-	err := vfs.baseFS.Remove(vfs.ToBasePath(name))
+	basePath := vfs.ToBasePath(name)
+	if basePath == vfs.basePath {
+		// the base path is the root directory of the file system : it can't be removed.
+		err := error(avfs.ErrPermDenied)
+		if vfs.OSType() == avfs.OsWindows {
+			err = avfs.ErrWinAccessDenied
+		}
+
+		return &fs.PathError{Op: "remove", Path: name, Err: err}
+	}
+
+	err := vfs.baseFS.Remove(basePath)
 
 	return vfs.FromPathError(err)
 }
@@ -417,7 +429,31 @@ func (vfs *BasePathFS) RemoveAll(path string) error {
 		return nil
 	}
 
-	err := vfs.baseFS.RemoveAll(vfs.ToBasePath(path))
+	basePath := vfs.ToBasePath(path)
+	if basePath == vfs.basePath {
+		// the base path is the root directory of the file system : only its content is removed.
+		entries, err := vfs.baseFS.ReadDir(basePath)
+		if err != nil {
+			return vfs.FromPathError(err)
+		}
+
+		for _, entry := range entries {
+			err = vfs.baseFS.RemoveAll(vfs.baseFS.Join(basePath, entry.Name()))
+			if err != nil {
+				// the error names the argument, as it does for any other directory.
+				var pe *fs.PathError
+				if errors.As(err, &pe) {
+					return &fs.PathError{Op: pe.Op, Path: path, Err: pe.Err}
+				}
+
+				return vfs.FromPathError(err)
+			}
+		}
+
+		return nil
+	}
+
+	err := vfs.baseFS.RemoveAll(basePath)
 
 	return vfs.FromPathError(err)
 }
